@@ -244,6 +244,12 @@ TEMPLATES = [
     # lambda defaults spelled like the parameter, read from the enclosing function's rebindable variables
     "def mk(n, label='x'):\n    def bump():\n        nonlocal n, label\n        n += 1\n        label += '!'\n    bump()\n    g = lambda n=n, *, label=label: (n, label)\n    bump()\n    return g(), g(0, label='y'), n, label\nL('r', mk(1))",
     "class K:\n    n = 3\n    g = lambda self, n=n, *, m=n + 1: (n, m)\n    n = 9\nL('r', K().g(), K().g(1, m=2))",
+    # call binding: positional, keyword, * and ** argument VALUES that read rebindable variables of an
+    # enclosing function, class members in a class body, a declared global shadowed by an outer local
+    "def report(t, *, width=10, fill='.'):\n    return (t, width, fill)\ndef build(width, fill='-'):\n    def widen():\n        nonlocal width, fill\n        width += 2\n        fill += '+'\n    widen()\n    opts = {'fill': fill}\n    pos = (width,)\n    return (report('a', width=width), report('b', **opts), report(*pos, fill=fill),\n            report(t=width, width=(w := width * 2), fill=(lambda: fill)()), w, report(*[width], **{'fill': fill, 'width': width}))\nL('r', build(4))",
+    "def show(*a, **k):\n    return (a, sorted(k.items()))\nclass K:\n    n = 3\n    opts = {'z': n}\n    r1 = show(n, k=n)\n    r2 = show(*[n], **opts, j=n + 1)\n    n = 4\n    r3 = show(k=n, **{'y': n})\n    def m(self, n=n):\n        return show(n, k=n, s=self.n)\nL('r', K.r1, K.r2, K.r3, K().m(), K().m(n=0))",
+    "g = 'glob'\ndef show(*a, **k):\n    return (a, sorted(k.items()))\ndef outer(h='param'):\n    g = 'outer-local'\n    def inner():\n        global g\n        return show(g, k=g, **{'j': g}), show(h, k=h, *[h])\n    return inner(), show(k=g, **{'j': g})\nL('r', outer())",
+    "def show(*a, **k):\n    return (a, sorted(k.items()))\ndef f(n):\n    def bump():\n        nonlocal n\n        n += 1\n        return n\n    return show(n, bump(), n, k=n, j=bump(), i=n, **{'h': n}), [show(e, k=n + e) for e in range(2)], (lambda q=n, **kw: show(q, k=n, **kw))(z=n)\nL('r', f(1))",
     # recursion and closures keep binding
     "def fact(n, acc=1):\n    return acc if n <= 1 else fact(n - 1, acc * n)\nL('r', fact(5), fact(n=3), fact(4, acc=2))",
     "def deco(fn):\n    def w(*a, **k):\n        return fn(*a, **k)\n    return w\nclass K:\n    @deco\n    def m(self, x, /, y=2, *, z=3):\n        return (x, y, z)\n    @staticmethod\n    @deco\n    def s(x=1):\n        return x\n    @classmethod\n    def c(cls, *a, **k):\n        return (cls.__name__, a, sorted(k))\nL('r', K().m(1), K().m(1, 5, z=6), K.s(), K().s(4), K.c(1, q=2), K().c())",
